@@ -98,6 +98,90 @@ theorem save_load_roundtrip_framed [JsonCodec] (ty : Ty) (v : Val ty) (hw : wf t
   refine ⟨by simp, ?_⟩
   simp [slice]
 
+/-! ## facts the model states by hand, proved or pinned down
+
+Byte order and `sizeof(size_t)` come from the compiler's macros (`Gen.littleEndian`, `Gen.sizeofSizeT`); every theorem
+of this file holds for either byte order (only the examples with literal bytes are little-endian). -/
+
+/-- **Object representation of unsigned integers** (`memcpy(&x, …)` of a `k`-byte integer, either byte order):
+decoding an encoding gives the value modulo 256^k, the encoding has `k` bytes, and encoding a decoding gives the bytes
+back — a bijection between `k`-byte strings and `[0, 256^k)`; this is what the length header (k = 4), the element
+counts (k = `sizeof(size_t)`) and the numeric order of POD keys rest on. -/
+theorem pod_codec_roundtrip :
+    (∀ k n, numVal (numBytes k n) = n % 256 ^ k ∧ (numBytes k n).length = k) ∧ (∀ b : Bytes, numBytes b.length (numVal b) = b) :=
+  ⟨fun k n => ⟨numVal_numBytes k n, numBytes_length k n⟩, numBytes_numVal⟩
+
+/-- **`operator<` of the model is a strict weak order on every type, and a strict total order on the well-formed
+values of key types**: asymmetric, negatively transitive (hence transitive), and two well-formed values neither of
+which is smaller are equal — so `std::set` / `std::map` hold one entry per *value* and the "same key" classes of
+`multiset` / `multimap` are classes of equal keys. -/
+theorem operator_lt_order [JsonCodec] (ty : Ty) :
+    (∀ a b : Val ty, lt ty a b = true → lt ty b a = false) ∧
+    (∀ a b c : Val ty, lt ty a b = false → lt ty b c = false → lt ty a c = false) ∧
+    (∀ a b c : Val ty, lt ty a b = true → lt ty b c = true → lt ty a c = true) ∧
+    (keyable ty = true → ∀ a b : Val ty, wf ty a = true → wf ty b = true → lt ty a b = false → lt ty b a = false → a = b) :=
+  ⟨lt_asymm ty, lt_negTrans ty, trans_of_asymm_negTrans (lt ty) (lt_asymm ty) (lt_negTrans ty), lt_tricho ty⟩
+
+/-- a successful `counted` load is a count, that many element loads, and the container's insertion of the list -/
+theorem counted_load_inv {α β : Type} (c : Res Nat) (f : Nat → St → Res (List α)) (post : List α → β) (v : β) (s' : St)
+    (h : (c.bind fun n s1 => (f n s1).map post) = .ok v s') :
+    ∃ n s1 l, c = .ok n s1 ∧ f n s1 = .ok l s' ∧ v = post l := by
+  cases c with
+  | err e s1 => cases h
+  | ok n s1 =>
+    rw [Res.bind_ok] at h
+    cases hf : f n s1 with
+    | err e s2 => rw [hf] at h; cases h
+    | ok l s2 =>
+      rw [hf, Res.map_ok] at h
+      injection h with h1 h2
+      subst h1 h2
+      exact ⟨n, s1, l, rfl, hf, rfl⟩
+
+/-- **`std::multimap` / `std::multiset`: equal keys keep their archive order.**  Whatever the archive holds (also
+unsorted, also malformed elsewhere): if the load succeeds with `v`, then `v` is a permutation of the entries `l` in the
+order they were read, and for every key `key` the entries of `v` equivalent to it are exactly those of `l`, in the
+same order (with `load_ok_wellformed`: `v` is the stable sort of `l`). -/
+theorem multi_containers_keep_load_order [JsonCodec] (b : Bytes) (s s' : St) :
+    (∀ (k w : Ty) (v : List (Val k × Val w)), load b (.mmap k w) s = .ok v s' →
+      ∃ n s1 l, loadCount b s = .ok n s1 ∧ loadN (loadPair (load b k) (load b w)) n s1 = .ok l s' ∧
+        v.Perm l ∧ ∀ key, v.filter (fun e => eqv (lt k) key e.1) = l.filter (fun e => eqv (lt k) key e.1)) ∧
+    (∀ (t : Ty) (v : List (Val t)), load b (.mset t) s = .ok v s' →
+      ∃ n s1 l, loadCount b s = .ok n s1 ∧ loadN (load b t) n s1 = .ok l s' ∧
+        v.Perm l ∧ ∀ key, v.filter (fun e => eqv (lt t) key e) = l.filter (fun e => eqv (lt t) key e)) := by
+  constructor
+  · intro k w v h
+    simp only [load] at h
+    obtain ⟨n, s1, l, h1, h2, h3⟩ := counted_load_inv _ _ _ v s' h
+    subst h3
+    exact ⟨n, s1, l, h1, h2, mmapOfList_perm (lt k) l, fun key => mmapOfList_stable (lt k) (lt_asymm k) (lt_negTrans k) key l⟩
+  · intro t v h
+    simp only [load] at h
+    obtain ⟨n, s1, l, h1, h2, h3⟩ := counted_load_inv _ _ _ v s' h
+    subst h3
+    exact ⟨n, s1, l, h1, h2, msetOfList_perm (lt t) l, fun key => msetOfList_stable (lt t) (lt_asymm t) (lt_negTrans t) key l⟩
+
+/-- **`std::map` / `std::set`: of several archive entries with the same key the first one wins** (`insert` does not
+overwrite): the entries of the result equivalent to `key` are the first such entry read, if any. -/
+theorem unique_containers_keep_first [JsonCodec] (b : Bytes) (s s' : St) :
+    (∀ (k w : Ty) (v : List (Val k × Val w)), load b (.map k w) s = .ok v s' →
+      ∃ n s1 l, loadCount b s = .ok n s1 ∧ loadN (loadPair (load b k) (load b w)) n s1 = .ok l s' ∧
+        ∀ key, v.filter (fun e => eqv (lt k) key e.1) = (l.filter (fun e => eqv (lt k) key e.1)).take 1) ∧
+    (∀ (t : Ty) (v : List (Val t)), load b (.set t) s = .ok v s' →
+      ∃ n s1 l, loadCount b s = .ok n s1 ∧ loadN (load b t) n s1 = .ok l s' ∧
+        ∀ key, v.filter (fun e => eqv (lt t) key e) = (l.filter (fun e => eqv (lt t) key e)).take 1) := by
+  constructor
+  · intro k w v h
+    simp only [load] at h
+    obtain ⟨n, s1, l, h1, h2, h3⟩ := counted_load_inv _ _ _ v s' h
+    subst h3
+    exact ⟨n, s1, l, h1, h2, fun key => mapOfList_first (lt k) (lt_asymm k) (lt_negTrans k) key l⟩
+  · intro t v h
+    simp only [load] at h
+    obtain ⟨n, s1, l, h1, h2, h3⟩ := counted_load_inv _ _ _ v s' h
+    subst h3
+    exact ⟨n, s1, l, h1, h2, fun key => setOfList_first (lt t) (lt_asymm t) (lt_negTrans t) key l⟩
+
 /-! ## `json::value` members: the law comes from property C11 -/
 
 /-- The hypothesis `jsonRT` of the round-trip theorems, for the codec that C11 models (`c11Codec ops`: compact
@@ -255,19 +339,19 @@ theorem string_chunk_truncates (data : Bytes) (hlen : (chunk data).length < 2 ^ 
     ∃ r, readChunkAsString (chunk data) St.init
       = .ok (data.take (data.length % 2 ^ 32)) ⟨4 + data.length % 2 ^ 32, r⟩ := by
   have hcl := chunk_length data
-  have hat : At (chunk data) 0 (leBytes Gen.wrHdrLen (data.length % 2 ^ Gen.wrSizeBits) ++ data) := At_self _
-  rw [At_append, leBytes_length] at hat
+  have hat : At (chunk data) 0 (numBytes Gen.wrHdrLen (data.length % 2 ^ Gen.wrSizeBits) ++ data) := At_self _
+  rw [At_append, numBytes_length] at hat
   obtain ⟨⟨_, hs1⟩, ⟨_, hs2'⟩⟩ := hat
   simp only [Gen.wrHdrLen, Gen.wrSizeBits, Nat.zero_add] at hs1 hs2'
-  rw [leBytes_length] at hs1
+  rw [numBytes_length] at hs1
   have hs2 : slice (chunk data) 4 (data.length % 2 ^ 32) = data.take (data.length % 2 ^ 32) := by
     have : slice (chunk data) 4 (data.length % 2 ^ 32) = (slice (chunk data) 4 data.length).take (data.length % 2 ^ 32) := by
       simp only [slice, List.take_take]
       rw [Nat.min_eq_left (Nat.mod_le _ _)]
     rw [this, hs2']
   have hm : data.length % 2 ^ 32 ≤ data.length := Nat.mod_le _ _
-  have hsz : leNat (slice (chunk data) 0 4) % 2 ^ 32 = data.length % 2 ^ 32 := by
-    rw [hs1, leNat_leBytes]
+  have hsz : numVal (slice (chunk data) 0 4) % 2 ^ 32 = data.length % 2 ^ 32 := by
+    rw [hs1, numVal_numBytes]
     have : (256 : Nat) ^ 4 = 2 ^ 32 := by decide
     rw [this, Nat.mod_mod, Nat.mod_mod]
   have c1 : Gen.eofCond 0 (chunk data).length = false := by
@@ -345,6 +429,16 @@ example : (∀ op ∈ [C07.Op.store 0 [107, 50] [1] [] 10] ++ C07.Op.store 5 [10
   intro op hop
   simp only [List.cons_append, List.nil_append, List.mem_cons, List.not_mem_nil, or_false] at hop
   rcases hop with rfl | rfl | rfl | rfl <;> simp [C07.Op.quiet]
+
+/-- a multimap archive with keys 2,1,2,1 (values a,b,c,d): loads as 1→b, 1→d, 2→a, 2→c -/
+example : ∃ s, loadArchive (.mmap (.pod 1) .str)
+    [8,0,0,0, 4,0,0,0,0,0,0,0,  1,0,0,0,2, 1,0,0,0,97,  1,0,0,0,1, 1,0,0,0,98,  1,0,0,0,2, 1,0,0,0,99,  1,0,0,0,1, 1,0,0,0,100]
+    = .ok [([1], [98]), ([1], [100]), ([2], [97]), ([2], [99])] s := ⟨_, rfl⟩
+
+/-- the same bytes as a `std::map`: the first entry of each key wins -/
+example : ∃ s, loadArchive (.map (.pod 1) .str)
+    [8,0,0,0, 4,0,0,0,0,0,0,0,  1,0,0,0,2, 1,0,0,0,97,  1,0,0,0,1, 1,0,0,0,98,  1,0,0,0,2, 1,0,0,0,99,  1,0,0,0,1, 1,0,0,0,100]
+    = .ok [([1], [98]), ([2], [97])] s := ⟨_, rfl⟩
 
 /-- a malformed set archive (elements 2, 1, 2 in that order) loads as the sorted, duplicate-free set {1, 2} -/
 example : ∃ s, loadArchive (.set (.pod 1)) [8,0,0,0, 3,0,0,0,0,0,0,0, 1,0,0,0, 2, 1,0,0,0, 1, 1,0,0,0, 2] = .ok [[1], [2]] s :=
